@@ -55,6 +55,7 @@ type Prog struct {
 	canonEnv  env // parameter substitution in effect while canonE runs
 	factMemo  map[*ssa.Function][]branchFact
 	RoleNotes []string
+	opaque    map[*ssa.Function]bool // domain anchors: never expanded into facts when called
 	roleOf    map[*ssa.Function]string
 	// boundRecv: receiver parameter of a module method that is only ever used as one bound method value
 	// (withLock(..., claim.commit)) -> the value it is bound to at that site
